@@ -8,7 +8,9 @@
   1. `validate_ok_shape`      what a record that passes Strict validation looks like;
   2. `refused_no_bytes`       a refused record leaves the writer untouched (no bytes, nothing
                               queued), with the complete list of exceptions and their causes
-                              (`refused_error_kinds`, `refused_only_format`, `unkeyable_refused`);
+                              (`refused_error_kinds`, `refused_only_format`, `unkeyable_refused`,
+                              `bad_position_refused`: a position text that is not a number is a
+                              `KeyError` from the sorter's key function, like a missing column);
   3. `emitted_line`           the line a direct writer emits: one rendering per scheme column,
                               each of a column valid for its position, each free of TAB/CR/LF;
   4. `emitted_line_accepted`  that line is accepted by `MafRecord.from_line` in Strict mode —
@@ -91,7 +93,9 @@ theorem refused_no_bytes (C : Ctx) (K : HConsts) (w : Writer) (r : Record) (S : 
 /-- **C06.2, which exceptions and when.**  The exception is
     * the `MafFormatException` of the first validation error of the record, or
     * — the record validated — when sorting: the exception of the sorter's key function on
-      the record, which is a `KeyError` or a `ValueError`, or
+      the record, which is a `KeyError` (a coordinate column is missing or a position is a text
+      that is not a number) or a `ValueError` (chromosome not in the contig list,
+      `refused_valueError_contigs`), or
     * — the record validated (and could be keyed) — the failure of `str(record)`. -/
 theorem refused_error_kinds (C : Ctx) (K : HConsts) (w : Writer) (r : Record) (S : Scheme) (e : PyErr)
     (hs : w.scheme = some S) (hS : S.truthy = true) (hm : w.mode = .strict)
@@ -120,6 +124,35 @@ theorem unkeyable_refused (C : Ctx) (K : HConsts) (w : Writer) (r : Record) (S :
       rw [← hres]
     obtain ⟨_, _, ⟨k, hk'⟩, _⟩ := Writer.write_ok_sorting hs hS hm hsort hw
     rw [hk] at hk'; cases hk'
+
+/-- a record that HAS its coordinate columns, with a chromosome the sorter can key, but whose
+    `Start_Position` or `End_Position` is a text that is not a number, cannot be keyed either:
+    a sorting Strict writer refuses it — once it validates — with `KeyError` (not `ValueError`),
+    and is left untouched -/
+theorem bad_position_refused (C : Ctx) (K : HConsts) (w : Writer) (r : Record) (S : Scheme)
+    (hs : w.scheme = some S) (hS : S.truthy = true) (hm : w.mode = .strict)
+    (hsort : w.sorting = true) {lg : List LogRec}
+    (hval : (r.validate C (some .strict) true (some S)).2 = .ok lg)
+    (h0 : r.toLoc.hasCoords = true) (hc : r.toLoc.chrOk (w.header.sortOrder K).2)
+    (hp : r.toLoc.start.posOk = false ∨ r.toLoc.stop.posOk = false) :
+    w.write C K r = (w, .error .key) := by
+  rw [Writer.write_of_scheme C K w r hs hS, hm]
+  have hkey := Writer.keyOf_validate C K w r (some .strict) true (some S)
+  rw [Writer.keyOf_bad_position h0 hc hp] at hkey
+  generalize r.validate C (some .strict) true (some S) = V at hval hkey
+  rcases V with ⟨r', (e | l)⟩
+  · cases hval
+  · simp only at hkey ⊢
+    simp only [hsort, if_true, hkey]
+
+/-- the `ValueError` a sorting writer can raise from the key function is the missing-contig error
+    (the header gives a contig list without the record's chromosome) — never a bad position -/
+theorem refused_valueError_contigs (K : HConsts) (w : Writer) (r : Record)
+    (h : w.keyOf K r = .error .value) :
+    (w.header.sortOrder K).2 ≠ [] ∧
+    (r.toLoc.hasCoords = true →
+      ∀ s, r.toLoc.chrName = some s → s ∉ (w.header.sortOrder K).2) :=
+  Writer.keyOf_valueError h
 
 /-- **C06.2, the `MafFormatException` case.**  When the record's columns are of column types
     of the development and carry well-formed values, `str(record)` of a validated record does
@@ -647,6 +680,30 @@ example : ∃ r', Record.fromLine demoC "a b;c\t\n".toList none (some plainS) (s
   have hl : "a b;c\t\n".toList = line ++ ['\n'] := by simpa [plainW] using hout
   rw [hl]
   exact h1
+
+/-- non-vacuity of `bad_position_refused`: unrestricted scheme with the three coordinate columns,
+    the start position `abc` is not a number; the record validates, has its coordinates, and the
+    sorting Strict writer refuses it with `KeyError`, untouched -/
+def posS : Scheme := noRestrictionsScheme ["Chromosome", "Start_Position", "End_Position"]
+def posCol (i : Nat) (k v : String) : RCol :=
+  ⟨i, { cls := "MafColumnRecord", key := k.toList, value := .atom (.str v.toList), index := some i }⟩
+def posR : Record :=
+  { dict := [("Chromosome".toList, posCol 0 "Chromosome" "chr1"),
+             ("Start_Position".toList, posCol 1 "Start_Position" "abc"),
+             ("End_Position".toList, posCol 2 "End_Position" "7")],
+    slots := [some (posCol 0 "Chromosome" "chr1"), some (posCol 1 "Start_Position" "abc"),
+              some (posCol 2 "End_Position" "7")] }
+def posWs : Writer := { scheme := some posS, mode := .strict, sorting := true, assumeSorted := false }
+
+example : (posR.validate demoC (some .strict) true (some posS)).2 = .ok [] ∧
+    posR.toLoc.hasCoords = true ∧ posR.toLoc.start = .str "abc".toList ∧
+    posWs.write demoC demoK posR = (posWs, .error .key) := by
+  have hv : (posR.validate demoC (some .strict) true (some posS)).2 = .ok [] := by decide +kernel
+  have h0 : posR.toLoc.hasCoords = true := by decide +kernel
+  have hs : posR.toLoc.start = .str "abc".toList := by decide +kernel
+  refine ⟨hv, h0, hs, ?_⟩
+  exact bad_position_refused demoC demoK posWs posR posS rfl (by decide +kernel) rfl rfl hv h0
+    (.inl (by decide +kernel)) (.inl (by rw [hs]; decide))
 
 /-- the per-type statement applies to values that never came from parsing: the `str` `""` in a
     `NullableStringColumn` (re-read as `None`) and `[Null]` in a list of yes/no (re-read as `[]`) -/
